@@ -99,6 +99,18 @@ func writeReplay(prop, kind, class, detail string, c interface{}) {
 	os.WriteFile(p, b, 0o644)
 }
 
+// pendingMode makes every runner record the case it is about to execute, so
+// that a crash of the whole process (stack overflow, fatal error) leaves the
+// crashing case behind as the replay file. The check driver re-runs a shard
+// that died with the same seed in this mode.
+var pendingMode = os.Getenv("VERIF_PENDING") != ""
+
+func pending(prop, kind string, c interface{}) {
+	if pendingMode {
+		writeReplay(prop, kind, "process crash", "the process died while executing the last step of this case", c)
+	}
+}
+
 // failure describes a property violation found by a runner.
 type failure struct {
 	Class  string // fixed text, identical for every instance of this kind of failure
@@ -347,7 +359,14 @@ func compareResult(op model.Op, want, got model.Result, drvName string) *failure
 		if s := compareDesc(want.Desc, got.Desc); s != "" {
 			return newFail("table description differs", "%s %s: %s", drvName, op.Kind, s)
 		}
-	case "DescribeTable", "DeleteTable", "AddIndex", "DeleteIndex":
+	case "AddIndex":
+		if op.IndexSchema != nil && op.IndexSchema.ViaHelper {
+			return nil
+		}
+		if s := compareDesc(want.Desc, got.Desc); s != "" {
+			return newFail("table description differs", "%s %s: %s", drvName, op.Kind, s)
+		}
+	case "DescribeTable", "DeleteTable", "DeleteIndex":
 		if s := compareDesc(want.Desc, got.Desc); s != "" {
 			return newFail("table description differs", "%s %s: %s", drvName, op.Kind, s)
 		}
@@ -456,6 +475,9 @@ func (w *world) do(op model.Op) (model.Result, int, *failure) {
 	}
 	w.Ops = append(w.Ops, op)
 	w.steps++
+	if pendingMode {
+		pending(w.prop, "history:"+w.prop, w.asCase())
+	}
 	for _, d := range w.ds {
 		if op.Kind == "BatchGet" && d.Name() == "v1" {
 			continue // not implemented by the v1 client
@@ -525,6 +547,11 @@ func (w *world) check() *failure {
 					}
 				}
 			}
+			if w.cfg.IndexReads {
+				if f := w.indexQueries(d, tn, mt); f != nil {
+					return f
+				}
+			}
 			if w.cfg.GetKeys {
 				for _, k := range w.pool[tn] {
 					ck, ok := mt.KeyOf(k)
@@ -538,6 +565,39 @@ func (w *world) check() *failure {
 					if !model.ItemEqual(mt.Items[ck], g.Item) {
 						return newFail("get differs from model", "%s table %s key %s: want %s got %s", d.Name(), tn, model.CanonItem(k), model.CanonItem(mt.Items[ck]), model.CanonItem(g.Item))
 					}
+				}
+			}
+		}
+	}
+	return nil
+}
+
+// indexQueries queries every index once per index hash value in use and
+// compares the result with the model's view (multiset and sort order).
+func (w *world) indexQueries(d drv.Real, tn string, mt *model.Table) *failure {
+	for _, ix := range mt.Schema.Indexes {
+		if open("F-NUMSORT") && numSortMismatch(mt, ix.Name) {
+			stats.For(w.prop).Exclude("F-NUMSORT")
+			continue
+		}
+		seen := map[string]bool{}
+		for _, it := range mt.View(ix.Name) {
+			hv := it[ix.Hash]
+			if seen[model.Canon(hv)] {
+				continue
+			}
+			seen[model.Canon(hv)] = true
+			for _, back := range []bool{false, true} {
+				op := model.Op{Kind: "Query", Table: tn, Index: ix.Name, KeyCond: "#h = :h", Names: map[string]string{"#h": ix.Hash},
+					Values: map[string]model.AV{":h": hv}, Backward: back}
+				want := w.m.Clone().Apply(op)
+				if want.Weak || want.Err != "" {
+					continue
+				}
+				got := d.Apply(op)
+				if f := compareResult(op, want, got, d.Name()); f != nil {
+					f.Class = "index query differs from model"
+					return f
 				}
 			}
 		}
